@@ -29,7 +29,8 @@ open PyCraft PyCraft.Neg PyCraft.HsWire
 
 /-- The reference server and the client's status reader see only the concatenation of the arrival
 segments: two segmentations of the same bytes — well-formed or not — give the same result
-(handshake record, frames, final exception). -/
+(handshake record, frames, final exception — for the client's reader always an exception, `EOFError`
+when the stream is exhausted). -/
 theorem segmentation_invariant (s1 s2 : Segs) (h : s1.flatten = s2.flatten) :
     serverRecv s1 = serverRecv s2 ∧ clientRecvStatus s1 = clientRecvStatus s2 := by
   constructor
@@ -316,7 +317,8 @@ Python's `struct '>q'`): the client's ping frame is `09 01` followed by 8 payloa
 status stream handshake + request + ping is written without an exception and the reference server
 — under any segmentation — reads from it next state 1, the request and a ping that decodes to `t`;
 the pong it answers with (the `Long` it decoded, re-encoded) is `09 01` followed by THE SAME 8
-bytes `b`; and the client — under any segmentation — decodes that pong to the `t` it sent. -/
+bytes `b`; and the client — under any segmentation — decodes that pong to the `t` it sent, then end
+of stream (`EOFError`: nothing follows the pong). -/
 theorem ping_echo_bytes (lsId : Nat) (p : ConnParams) (ctx : Nat) (t : Int) (json : String)
     (segsC segsS : Segs) (ht : IntT.i64.inDom t) (hh : StrOK p.host) (hp : p.port < 65536)
     (hc : ctx < 2 ^ 32)
@@ -328,7 +330,7 @@ theorem ping_echo_bytes (lsId : Nat) (p : ConnParams) (ctx : Nat) (t : Int) (jso
         rcv.frames = [(0, []), (1, b)] ∧ rcv.decoded lsId = [.request, .ping t] ∧
         rcv.err = none) ∧
       serverReply json (.ping t) = .ok ([0x09, 0x01] ++ b) ∧
-      (segsS.flatten = [0x09, 0x01] ++ b → clientRecvStatus segsS = ([.pong t], none)) := by
+      (segsS.flatten = [0x09, 0x01] ++ b → clientRecvStatus segsS = ([.pong t], .eof)) := by
   obtain ⟨b, hb, hpack, hun⟩ := i64_roundtrip t ht
   have hq : HsOK ⟨ctx, p.host, p.port, 1⟩ := ⟨hc, hh, hp, by show (1 : Nat) < 2 ^ 32; omega⟩
   have hw : clientWrites lsId (statusFrames p ctx (some t)) =
@@ -362,13 +364,14 @@ theorem ping_echo_bytes (lsId : Nat) (p : ConnParams) (ctx : Nat) (t : Int) (jso
         simp only [List.mem_singleton] at hq'; subst hq'
         exact frameOK_fixed 1 b (by omega) (by omega)) hfr]
     simp only [decodeStatusAll, decode_pong t b hun]
+    rfl
 
 /-- (d) … and the other way round: ANY 8 payload bytes a server puts into a pong are a `Long` the
-client decodes, and re-encoding that `Long` gives the same 8 bytes (no two byte patterns collapse,
-`-0`/sign included). -/
+client decodes — one `pong` packet, then `EOFError` on the exhausted stream — and re-encoding that
+`Long` gives the same 8 bytes (no two byte patterns collapse, `-0`/sign included). -/
 theorem pong_payload_is_a_long (b : Bytes) (hb : b.length = 8) (segs : Segs)
     (hseg : segs.flatten = [0x09, 0x01] ++ b) :
-    ∃ t, IntT.i64.inDom t ∧ clientRecvStatus segs = ([.pong t], none) ∧
+    ∃ t, IntT.i64.inDom t ∧ clientRecvStatus segs = ([.pong t], .eof) ∧
       IntT.i64.pack t = .ok b := by
   obtain ⟨t, hun, hpack⟩ := i64_unpack_pack b [] hb
   obtain ⟨v, e1, e2, -, -⟩ := IntT.unpack_spec .i64 b [] hb
@@ -398,10 +401,11 @@ theorem ping_out_of_range_raises (lsId : Nat) (t : Int) (h : ¬ IntT.i64.inDom t
 /-- (e) The status response survives the wire.  For any JSON text (an opaque string; UTF-8 byte
 length within the VarInt range — `String.read` imposes no limit of its own), the bytes of the
 `ResponsePacket` a server writes are decoded by the client, under ANY segmentation, to exactly one
-`response` packet carrying the same text, followed by a clean end of stream. -/
+`response` packet carrying the same text, THEN END OF STREAM: the next `read_packet` finds the stream
+exhausted and raises `EOFError` (`.eof`), which is what ends the networking loop. -/
 theorem status_response_roundtrip (json : String) (segs : Segs) (hj : StrOK json)
     (hseg : segs.flatten = responseBytes json) :
-    clientRecvStatus segs = ([.response json], none) := by
+    clientRecvStatus segs = ([.response json], .eof) := by
   have hfr : segs.flatten =
       ([((0 : Nat), encString json)].map (packetFrame noZlib none)).flatten := by
     rw [hseg]; simp [responseBytes, plainFrame]
@@ -410,16 +414,18 @@ theorem status_response_roundtrip (json : String) (segs : Segs) (hj : StrOK json
       simp only [List.mem_singleton] at hq; subst hq
       exact frameOK_string 0 json (by omega) hj) hfr]
   simp only [decodeStatusAll, decode_response json hj]
+  rfl
 
 /-- (e) The whole status exchange, bytes in, C09 out.  If the server's byte stream is the response
 for `json` followed by the pong for the time `t₁` the client stamped its ping with, then under any
-segmentation the client's reader hands `[response json, pong t₁]` to the reactor, and the reactor
+segmentation the client's reader hands `[response json, pong t₁]` to the reactor, then end of stream
+(`EOFError` on the exhausted stream), and the reactor
 (`runStatus`, property C09) reports the status once, sends one ping, reports the latency
 `t₂ − t₁ ≥ 0` once, disconnects once and runs the exit callback once. -/
 theorem status_exchange_bytes (json : String) (t₁ t₂ : Nat) (clock : List Nat) (pong : Bytes)
     (segs : Segs) (hj : StrOK json) (hmono : t₁ ≤ t₂) (hpong : pongBytes (t₁ : Int) = .ok pong)
     (hseg : segs.flatten = responseBytes json ++ pong) :
-    clientRecvStatus segs = ([.response json, .pong (t₁ : Int)], none) ∧
+    clientRecvStatus segs = ([.response json, .pong (t₁ : Int)], .eof) ∧
     runStatus true (clientRecvStatus segs).1 (t₁ :: t₂ :: clock) =
       some ⟨[.sendPing t₁, .handleStatus json, .disconnect, .handlePing ((t₂ : Int) - t₁)],
         true, 1⟩ ∧
@@ -435,7 +441,7 @@ theorem status_exchange_bytes (json : String) (t₁ t₂ : Nat) (clock : List Na
   have hfr : segs.flatten =
       ([((0 : Nat), encString json), (1, b)].map (packetFrame noZlib none)).flatten := by
     rw [hseg, ← hpong]; simp [responseBytes, plainFrame]
-  have hrecv : clientRecvStatus segs = ([.response json, .pong (t₁ : Int)], none) := by
+  have hrecv : clientRecvStatus segs = ([.response json, .pong (t₁ : Int)], .eof) := by
     rw [clientRecvStatus_frames [(0, encString json), (1, b)] segs
       (fun q hq => by
         simp only [List.mem_cons, List.not_mem_nil, or_false] at hq
@@ -443,6 +449,7 @@ theorem status_exchange_bytes (json : String) (t₁ t₂ : Nat) (clock : List Na
         · exact frameOK_string 0 json (by omega) hj
         · exact frameOK_fixed 1 b (by omega) (by omega)) hfr]
     simp only [decodeStatusAll, decode_response json hj, decode_pong _ b hun]
+    rfl
   refine ⟨hrecv, ?_, by omega⟩
   rw [hrecv]
   exact (C09.status_once_ping json [] t₁ t₂ clock hmono).1
@@ -554,13 +561,13 @@ example :
     serverReply "{}" (.ping (-2)) =
       .ok [0x09, 0x01, 0xff, 0xff, 0xff, 0xff, 0xff, 0xff, 0xff, 0xfe] ∧
     clientRecvStatus ([0x09, 0x01, 0xff, 0xff, 0xff, 0xff, 0xff, 0xff, 0xff, 0xfe].map
-        fun x => [x]) = ([.pong (-2)], none) := by decide +kernel
+        fun x => [x]) = ([.pong (-2)], .eof) := by decide +kernel
 
 /-- `status_response_roundtrip` / `status_exchange_bytes` on a non-ASCII JSON text, the response
 cut inside the two-byte character. -/
 example : responseBytes "{\"é\":1}" = [0x0a, 0x00, 0x08, 0x7b, 0x22, 0xc3, 0xa9, 0x22, 0x3a, 0x31, 0x7d] ∧
     clientRecvStatus [[0x0a, 0x00, 0x08, 0x7b, 0x22, 0xc3], [0xa9, 0x22, 0x3a, 0x31, 0x7d]] =
-      ([.response "{\"é\":1}"], none) ∧
+      ([.response "{\"é\":1}"], .eof) ∧
     pongBytes 1000 = .ok [0x09, 0x01, 0, 0, 0, 0, 0, 0, 0x03, 0xe8] := by decide +kernel
 
 example : runStatus true
@@ -572,9 +579,18 @@ example : runStatus true
 
 /-- What the client's reader does with bytes that are not a status packet it knows, invalid UTF-8
 or a short `Long`: an unknown id is delivered as `other`, the rest raises. -/
-example : clientRecvStatus [[0x02, 0x07, 0xaa]] = ([.other], none) ∧
-    clientRecvStatus [[0x03, 0x00, 0x01, 0xc3]] = ([], some .decode) ∧
-    clientRecvStatus [[0x03, 0x01, 0x00, 0x00]] = ([], some .struct) ∧
-    clientRecvStatus [[0x03, 0x00, 0x05, 0x61]] = ([], some .eof) := by decide +kernel
+example : clientRecvStatus [[0x02, 0x07, 0xaa]] = ([.other], .eof) ∧
+    clientRecvStatus [[0x03, 0x00, 0x01, 0xc3]] = ([], .decode) ∧
+    clientRecvStatus [[0x03, 0x01, 0x00, 0x00]] = ([], .struct) ∧
+    clientRecvStatus [[0x03, 0x00, 0x05, 0x61]] = ([], .eof) := by decide +kernel
+
+/-- An EXHAUSTED stream is `EOFError` for the client's reader, never a silent clean end: no byte at
+all, only empty arrivals, a clean end behind a complete frame, and a cut inside a frame all end the
+run with `.eof` (the reference SERVER, `recvFrames`, is the one that tells a clean end — `none` —
+from a cut). -/
+example : clientRecvStatus [] = ([], .eof) ∧ clientRecvStatus [[], []] = ([], .eof) ∧
+    clientRecvStatus [responseBytes "{}"] = ([.response "{}"], .eof) ∧
+    clientRecvStatus [(responseBytes "{}").take 3] = ([], .eof) ∧
+    recvFrames 1 (Sock.plain []) = ([], none) := by decide +kernel
 
 end PyCraft.C09Wire
